@@ -255,8 +255,8 @@ class C11:
             for n in ctx.own_nodes(fn):
                 if isinstance(n, (ast.Assign, ast.Expr, ast.Call)):
                     m = pat.match(construct, n.value if isinstance(n, ast.Expr) else n)
-                    if m is None and isinstance(n, (ast.Assign, ast.Expr)):
-                        # a hoisted alias of the slot (`path_ents = self._paths[side][path]`) stands for the slot
+                    if m is None:
+                        # a hoisted alias of the slot (`path_ents = self._paths[side][path]`, `side_paths = self._paths[side]`) stands for the slot
                         m = pat.match(construct, _unaliased(ctx, fn, n.value if isinstance(n, ast.Expr) else n))
                     if m is not None and not (isinstance(n, ast.Call) and any(isinstance(pn, ast.Expr) and pn.value is n for pn in ctx.own_nodes(fn))):
                         hits.append((n, m))
